@@ -154,6 +154,24 @@ def run(prog, rep, tier):
               "super().sample(n) validates n before anything else", "n is not validated first")
     loops = sorted([(k, v) for k, v in S4.loopinfo.items() if v["func"] == f4.qname], key=lambda kv: kv[0][1])
     if len(loops) != 2:
+        # several node loops (e.g. sources first, the others afterwards): at least the *order* of generation can be judged - every
+        # loop over nodes must run along self._ordering or an order-keeping selection of it; a set difference / sort / unique on the
+        # way (np.setdiff1d returns sorted values) generates children before their parents
+        ctor_vals = {a.attr: a.value for a in S3.select("attrstore", qname=f3.qname)}
+        ctor_vals.update({a.attr: a.value for a in S.select("attrstore", qname=f.qname) if a.attr not in ctor_vals})
+        for lid_, lv in loops[1:]:
+            it = lv["iter"]
+            seen_attrs = set()
+            while isinstance(it, tuple) and it[:1] == ("self",) and it[1] in ctor_vals and it[1] not in seen_attrs and it[1] != "_ordering":
+                seen_attrs.add(it[1])
+                it = ctor_vals[it[1]]
+            def has_order(t_):
+                return any(y == ("self", "_ordering") or (isinstance(y, tuple) and y[:2] == ("call", U + "topological_ordering")) for y in walk(t_))
+            # only re-ordering operations applied to the ordering itself count (not e.g. sorted(pa(i)) inside a filter condition)
+            destroyed = [x for x in walk(it) if isinstance(x, tuple) and len(x) == 4 and x[0] == "ext" and x[1] in api.ORDER_DESTROY and any(has_order(a_) for a_ in x[2])]
+            if destroyed:
+                rep.bad("ORDER.nodes", fwhere(f4, lv["node"]), "the node loop runs over %s: %s re-orders the topological ordering, so a variable can be generated "
+                        "before its parents" % (fmt(lv["iter"]), destroyed[0][1]))
         raise Inconclusive("DRFNet.sample: expected an environment loop and a node loop", f4.node)
     (lo, outer), (li_, inner) = loops
     k4 = ("elem", outer["iter"])
